@@ -11,6 +11,14 @@ CLAIMED = {
             "Lean 4 theorems (binnify_eq_spec, getBinsize_truthful, getChromsizes_mem) + exhaustive differential correspondence of the Lean definitions with util.binnify/get_binsize/get_chromsizes",
             "Proof: binnify's edge construction equals the promised tiling for all size tables and widths; a reported bin size implies every bin is [k*b, min((k+1)*b, L)) on every valid segmentation; reported lengths are ends of last bins. The Lean definitions are executed against the real functions on every segmentation of small genomes.",
             "Trusted: Lean kernel; hand-written model tied by the correspondence harness; pandas groupby/drop_duplicates and float division are primitives."),
+    "C03": ("DESIGN.md §5 C03",
+            "Lean 4 theorems (direct_correct, fillLower_mem, fillLower_nodup, fillLower_correct, chunk independence for every valid span list) + exhaustive all-windows differential correspondence with Cooler.matrix in dense/sparse/pixel form",
+            "Proof: for every row-sorted store with a correct index, every window and every valid row-span choice, the direct engine returns exactly the stored records of the window in storage order and the fill-lower engine returns, without duplicates, exactly the sub-block of the symmetric completion. The Lean spec is compared with the real selectors on every window of [0,n]^4 for small n.",
+            "Trusted: Lean kernel; hand-written model of CSRReader/RangeQuery2D tied by correspondence; h5py/numpy/scipy primitives; spans are a free unit checked by contract."),
+    "C02": ("DESIGN.md §5 C02",
+            "Lean 4 theorems (rlencodeChunked_eq, indexPixels_spec, writePixels_concat, create_valid) + raw-HDF5 monitor evaluating the Lean schema predicate on every collection written by seeded histories of producing operations",
+            "Proof: the chunked run-length encoder equals the unchunked one for every block size; offsets built from runs equal the run-length index for every non-decreasing column; a validated chunk stream yields a store satisfying every schema clause. The predicate the theorem concludes is evaluated on raw dumps of all files written by create/unordered/merge/coarsen/zoomify/scool/CLI loaders.",
+            "Trusted: Lean kernel; model of rlencode/index_pixels/write_pixels tied by unit correspondences (exhaustive small arrays, all block sizes, >10^6-pixel creation in thorough); h5py raw reads."),
 }
 
 NOT_YET = {}
